@@ -272,6 +272,8 @@ def judge_write(step, rep, pre, post, names, src_dir, sh, case):
     t0 = layersim.parse_toml(v0["toml"]) if v0["toml"] is not None else (None, None)
     t1 = layersim.parse_toml(v1["toml"]) if v1["toml"] is not None else (None, None)
     op = step["op"]
+    if op == "env_to_metadata":       # used by C20 only: the derived metadata is compared across processes, not judged here
+        return True
     if op in ("write_metadata", "write_metadata_typed"):
         want = step["metadata"] if op == "write_metadata" else {"version": step["version"]}
         if t1[0] != t0[0]:
